@@ -166,11 +166,17 @@ impl Thread {
     /// Unpark a thread's state. If it is not currently parked, store the unpark
     /// for a future call to `park`.
     fn set_unparked(&mut self) {
-        if self.is_parked() || self.is_yield() {
+        if self.is_parked() {
             self.set_runnable();
         } else if !self.is_terminated() {
-            // The thread is runnable or blocked on some other object (a lock, a
-            // channel, a join, ...). Only that object may wake it up.
+            // The thread is not parked: it keeps the token for its next call
+            // to `park`. If it is blocked on some other object (a lock, a
+            // channel, a join, ...), only that object may wake it up; a
+            // yielded thread may run again.
+            if self.is_yield() {
+                self.set_runnable();
+            }
+
             self.unparked = true;
         }
     }
